@@ -109,7 +109,8 @@ def _gen_main(n, max_ins, tier_exp_len):
         for il in ins_lists:
             for ex in range(len(explicit_lists(n, tier_exp_len))):
                 for h in range(2 ** n):
-                    yield ("main", n, il, ex, tier_exp_len, h)
+                    for perm in ((0, 1) if n == 3 else (0,)):
+                        yield ("main", n, il, ex, tier_exp_len, h, perm)
     return gen
 
 
@@ -128,7 +129,7 @@ def spaces(tier):
         sub = anchors if not q else ["top", "bottom", None, STALE, 1, 2, "2", "3"]
         for il in itertools.product(sub, repeat=3):
             for h in (0, 2, 5):
-                yield ("main", n, tuple(il), 0, 0, h)
+                yield ("main", n, tuple(il), 0, 0, h, 0)
     out.append(Space("three_insertions", [(1, gen3)], 1, {"valid_elements": 3, "insertions": 3}))
     # where defined / id-less numbering / pruning / dimension (rows, columns, strand)
     def genw():
@@ -138,7 +139,8 @@ def spaces(tier):
             for idless in (False, True):
                 for il in itertools.product(anchors, repeat=2):
                     for ex in (None, [3, 1]):
-                        yield ("where", n, tuple(il), where, idless, ex)
+                        for perm in (0, 1):      # category ids ascending / not ascending in the payload
+                            yield ("where", n, tuple(il), where, idless, ex, perm)
     out.append(Space("where_defined", [(1, genw)], 1, {"valid_elements": 3, "insertions": 2,
                                                        "where": ["view", "transform", "both same order", "both permuted"]}))
     def gend():
@@ -198,8 +200,8 @@ def detail(space, state):
 def _describe(state):
     k = state[0]
     if k == "main":
-        _, n, il, ex, el, h = state
-        return {"valid_ids": list(range(1, n + 1)), "insertion_anchors": list(il),
+        _, n, il, ex, el, h, perm = state
+        return {"valid_ids": [3, 1, 2] if perm else list(range(1, n + 1)), "insertion_anchors": list(il),
                 "explicit_element_ids": explicit_lists(n, el)[ex] if el else None,
                 "hidden_idxs": [i for i in range(n) if h >> i & 1]}
     return {}
@@ -214,9 +216,9 @@ def _insertions(anchors, idless=False):
 
 
 def _run_cat(n, anchors, explicit, hidden, where="transform", idless=False, dim="rows", data_variant=0,
-             prune=False, t_anchor_perm=None):
+             prune=False, t_anchor_perm=None, id_order=None):
     """Build cube, return (partition, expected spec list, expected ids of subtotals)."""
-    ids = list(range(1, n + 1))
+    ids = list(range(1, n + 1)) if id_order is None else list(id_order)
     ins = _insertions(anchors, idless)
     view_ins = None
     t_ins = None
@@ -228,7 +230,7 @@ def _run_cat(n, anchors, explicit, hidden, where="transform", idless=False, dim=
         view_ins, t_ins = ins, [dict(i) for i in ins]
     elif where == "view_and_transform_permuted":
         view_ins, t_ins = ins, [dict(i) for i in reversed(ins)]
-    R = _cat(n)
+    R = S.cat("r", n, "mid", ids=ids)
     R = CatVar(R.alias, R.cats, view_insertions=view_ins)
     C = S.cat("c", 2, "last")
     dt = {}
@@ -305,14 +307,15 @@ def check(space, state):
     kind = state[0]
     asserted = 0
     if kind == "main":
-        _, n, il, ex, el, h = state
+        _, n, il, ex, el, h, perm = state
         explicit = explicit_lists(n, el)[ex] if el else None
         hidden = {i for i in range(n) if h >> i & 1}
-        part, exp, sub_ids, eff, dim = _run_cat(n, il, explicit, hidden)
+        part, exp, sub_ids, eff, dim = _run_cat(n, il, explicit, hidden, id_order=[3, 1, 2] if perm else None)
         a, signed = _compare(part, exp, sub_ids, eff, dim, V)
     elif kind == "where":
-        _, n, il, where, idless, ex = state
-        part, exp, sub_ids, eff, dim = _run_cat(n, il, ex, set(), where=where, idless=idless)
+        _, n, il, where, idless, ex, perm = state
+        part, exp, sub_ids, eff, dim = _run_cat(n, il, ex, set(), where=where, idless=idless,
+                                                id_order=[3, 1, 2] if perm else None)
         tag = ""
         if idless and where == "view":
             # cause predicate for the known numbering defect: a string-spelled element anchor
